@@ -3,7 +3,7 @@ import os
 import numpy as np
 from hypothesis import strategies as st
 
-from .. import files, codec, conv, gen, sgy, sources
+from .. import files, codec, conv, gen, iomodel, ops, sgy, sources
 from ..core import Violation
 from ..spec import FIELDS
 
@@ -40,7 +40,9 @@ def cases(draw):
     return {"src": src, "setting": {"rate": rate, "blockshape": list(bs)}, "mode": mode, "before": before,
             **({"prior": prior} if prior is not None else {}),
             "preload": draw(st.sampled_from([False, False, True])), "u": [draw(st.floats(0, 1, exclude_max=True)) for _ in range(3)],
-            "via": draw(st.sampled_from(["api", "api", "cli"]))}
+            "via": draw(st.sampled_from(["api", "api", "cli"])),
+            "src_form": draw(st.sampled_from(["str", "str", "path", "bytes", "fileobj", "nofd", "blob", "blob"])),
+            "out_form": draw(st.sampled_from(["str", "str", "path"]))}
 
 
 def run_case(case, ctx):
@@ -64,7 +66,12 @@ def run_case(case, ctx):
     conv.segy_convert(S.path, sgz, rate, bs, header_detection=case["mode"])
     out = os.path.join(d, "back.sgy")
     if case["via"] == "api":
-        c = SgzConverter(sgz, preload=bool(case.get("preload")))
+        # the SGZ is named (str, Path, bytes) or handed over as an open file, a file-like object without an OS
+        # descriptor, or a blob client
+        opened = []
+        form = case.get("src_form") or "str"
+        backend = iomodel.CountingFile(sgz) if form == "nofd" else iomodel.CountingBlob(sgz) if form == "blob" else None
+        c = SgzConverter(backend if backend is not None else ops.in_form(sgz, form, opened), preload=bool(case.get("preload")))
         try:
             with conv.env.quiet():
                 u = case.get("u", [0.5, 0.5, 0.5])
@@ -80,9 +87,13 @@ def run_case(case, ctx):
                             c.convert_to_segy(os.path.join(d, "other.sgy"))
                     except Exception as e:
                         raise Violation(f"earlier-call-failed:{b}", f"{b} on the exporting object: {type(e).__name__}: {e}")
-                c.convert_to_segy(out)
+                c.convert_to_segy(out if case.get("out_form") != "path" else ops.in_form(out, "path"))
         finally:
             c.close()
+            if backend is not None:
+                backend.close()
+            for f in opened:
+                f.close()
     else:
         code, exc = conv.cli_invoke(["sgz2sgy", sgz, out])
         if code != 0:
@@ -131,7 +142,8 @@ def run_case(case, ctx):
     return {"sig": [geom, a["format"], rate, list(bs), min(n_arrays, 5), ext, case["via"], case["mode"]] if nontriv else None,
             "labels": [geom, f"fmt{a['format']}", f"ext{ext}", case["via"], case["mode"]]
             + ["before:" + b for b in (case.get("before", []) if case["via"] == "api" else [])]
-            + (["preload"] if case.get("preload") and case["via"] == "api" else [])}
+            + (["preload"] if case.get("preload") and case["via"] == "api" else [])
+            + (["src:" + (case.get("src_form") or "str")] if case["via"] == "api" else [])}
 
 
 def shard_main(ctx):
